@@ -5,6 +5,16 @@ from . import tracecheck
 from .limbs import num
 
 
+C02_CLAUSES = {"OptimumAchieved", "HumanShareCaps", "FeedShareCaps", "BioShareCaps", "NoStoragePolicy", "BioNonRising", "HumansPinned",
+               "ScoreAchieved"}
+
+
+def cap(c, who):
+    k = c.get("caps") or {}
+    return dict(sw=num(k.get("MAX_SEAWEED_AS_PERCENT_KCALS_" + who, 100.0)), scp=num(k.get("MAX_METHANE_SCP_AS_PERCENT_KCALS_" + who, 100.0)),
+                cs=num(k.get("MAX_CELLULOSIC_SUGAR_AS_PERCENT_KCALS_" + who, 100.0)))
+
+
 def lp_trace(run, lp):
     c = lp["consts"]
     need = c["need"]
@@ -27,14 +37,16 @@ def lp_trace(run, lp):
               swKcal=q(sw["kcals"]), swInit=num(sw["initial"] if add["seaweed"] else 0.0),
               swInitArea=num(sw["initial_area"] if add["seaweed"] else 0.0), swMinDens=num(sw["min_density"]),
               swMaxDens=num(sw["max_density"]), swLoss=num(sw["harvest_loss"]),
-              sfInitial=q(c["sf_initial"] if add["sf"] else 0.0))
+              sfInitial=q(c["sf_initial"] if add["sf"] else 0.0), store=bool(c["store"]),
+              popNeed=q(c["POP"] * c["KCALS_MONTHLY"] / 1e9),
+              capH=cap(c, "HUMANS"), capF=cap(c, "FEED"), capB=cap(c, "BIOFUEL"))
     ev = [dict(ev="Begin", c=rc)]
     feed_key, bio_key = ("feed", "biofuel") if lp["kind"] == "H" else ("max_feed", "max_biofuel")
     for m in range(n):
         sup = dict(crops=q(s["crops"][m] if add["crops"] else 0.0), meat=q(s["meat"][m] if add["meat"] else 0.0),
                    scp=q(s["scp"][m] if add["scp"] else 0.0), cs=q(s["cs"][m] if add["cs"] else 0.0),
                    built=num(s["built_area"][m] if add["seaweed"] else 0.0), growth=num(s["growth"][m]),
-                   feed=q(s[feed_key][m]), bio=q(s[bio_key][m]), milk=q(s["milk"][m]), fish=q(s["fish"][m]), gh=q(s["greenhouse"][m]))
+                   feed=q(s[feed_key][m]), bio=q(s[bio_key][m]), chargeF=q(s["feed"][m]), chargeB=q(s["biofuel"][m]), milk=q(s["milk"][m]), fish=q(s["fish"][m]), gh=q(s["greenhouse"][m]))
         a = dict(sf=dict(h=q(v["stored_food_to_humans"][m]), f=q(v["stored_food_feed"][m]), b=q(v["stored_food_biofuel"][m])),
                  crops=dict(h=q(v["crops_food_to_humans"][m]), f=q(v["crops_food_feed"][m]), b=q(v["crops_food_biofuel"][m])),
                  scp=dict(h=q(v["methane_scp_to_humans"][m]), f=q(v["methane_scp_feed"][m]), b=q(v["methane_scp_biofuel"][m])),
@@ -42,8 +54,12 @@ def lp_trace(run, lp):
                  sw=dict(h=num(v["seaweed_to_humans"][m]), f=num(v["seaweed_feed"][m]), b=num(v["seaweed_biofuel"][m]),
                          wet=num(v["seaweed_wet_on_farm"][m]), area=num(v["used_area"][m])),
                  meat=q(v["meat_eaten"][m]))
-        ev.append(dict(ev="Month", m=m, sup=sup, a=a))
-    ev.append(dict(ev="Finish", n=n, z=num(lp["z"] / 100.0 if lp["kind"] == "H" else 0.0)))
+        mc = lp.get("min_cons")
+        pin = dict(sf=q(mc["stored_food"][m]), crops=q(mc["outdoor_crops"][m]), meat=q(mc["meat"][m]), scp=q(mc["methane_scp"][m]),
+                   cs=q(mc["cellulosic_sugar"][m]), sw=q(mc["seaweed"][m])) if mc else dict(sf=q(0), crops=q(0), meat=q(0), scp=q(0), cs=q(0), sw=q(0))
+        ev.append(dict(ev="Month", m=m, sup=sup, a=a, pin=pin))
+    # humans: the optimum as a fraction of the requirement; animals: the weighted feed / biofuel total in units of the requirement
+    ev.append(dict(ev="Finish", n=n, z=num(lp["z"] / 100.0 if lp["kind"] == "H" else lp["z"] / need)))
     return dict(hdr=dict(cc=run["job"]["cc"], preset=run["job"]["preset"], round=lp["round"], kind=lp["kind"],
                          store=c["store"], need=need), ev=ev)
 
@@ -74,8 +90,8 @@ def run(pid, tier):
             traces.append(lp_trace(run_, lp))
     fails = tracecheck.validate("Trace_Ledger", "Trace_Ledger.cfg", traces, out)
     for (t, l, clause) in fails:
-        if clause == "OptimumAchieved":
-            continue  # a C02 clause, reported by ./check C02
+        if clause in C02_CLAUSES:
+            continue  # C02 clauses, reported by ./check C02
         h = t["hdr"]
         e = t["ev"][l - 1] if l <= len(t["ev"]) else {}
         out.violation(key_of(t, l, clause), "%s %s round %d month %s" % (h["cc"], h["preset"], h["round"], e.get("m", "-")),
